@@ -105,7 +105,7 @@ def run(tier, seed):
         nbad = 0
         for c, o in zip(cases, outs):
             nbad += judge(v, c, o)
-        tested = selftest9(wd, cases, outs, kept)
+        tested = selftest9(wd, cases, outs, kept) if not v.violations else []
         states = sum(s["states"] for s in s16 + s32)
         cov = {"states": states, "transitions": states, "traces_validated_against_impl": len(cases) - nbad,
                "samples": [{k: c16[37][k] for k in ("w", "h", "bpp", "data", "expect")}, {k: c32[11][k] for k in ("w", "h", "bpp", "data", "expect")}],
